@@ -52,6 +52,9 @@ pub struct UnixTerminal {
     // terminal size, otherwise ioctl is used.
     size: Option<TerminalSize>,
     poll: Poll,
+    // set when terminal is being disposed, termination signals must not
+    // interrupt delivery of the epilogue
+    disposing: bool,
 }
 
 impl UnixTerminal {
@@ -145,6 +148,7 @@ impl UnixTerminal {
             capabilities,
             size: None,
             poll,
+            disposing: false,
         };
 
         capabilities_detect(&mut term)?;
@@ -191,6 +195,7 @@ impl UnixTerminal {
 
     /// Close all descriptors free all the resources
     fn dispose(&mut self) -> Result<(), Error> {
+        self.disposing = true;
         self.frames_drop();
 
         // flush currently queued output and submit the epilogue
@@ -461,7 +466,10 @@ impl Terminal for UnixTerminal {
                             }
                         }
                         SIGTERM | SIGINT | SIGQUIT => {
-                            return Err(Error::Quit);
+                            // already quitting, keep flushing the epilogue
+                            if !self.disposing {
+                                return Err(Error::Quit);
+                            }
                         }
                         _ => {}
                     }
